@@ -1,10 +1,10 @@
 #!/bin/bash
 # usage: tools/reeval_seeds.sh [tier] [glob]   (default: quick, all C??-* seeds)
 # Applies every stored seeded change in turn to the repository's working tree, runs the OWN property's check,
-# restores the tree. Writes seeded/REEVAL.<tier>.txt : one line per seed "<seed> <prop> exit=<rc> <first signatures>".
+# restores the tree (VERIF_SEED is honoured and then appended to the file name). Writes seeded/REEVAL.<tier>[.s<seed>].txt : one line per seed "<seed> <prop> exit=<rc> <first signatures>".
 tier=${1:-quick}; glob=${2:-C??-*}
 VROOT="$(cd "$(dirname "$0")/.." && pwd)"
-out=$VROOT/seeded/REEVAL.$tier.txt; : > $out
+out=$VROOT/seeded/REEVAL.$tier${VERIF_SEED:+.s$VERIF_SEED}.txt; : > $out
 for d in $VROOT/seeded/$glob; do
   s=$(basename $d); prop=${s%%-*}
   r=$($VROOT/tools/try_seed.sh $d/patch.diff $tier $prop 2>&1 | tail -1)
